@@ -673,6 +673,15 @@ type c13RWMutexSink struct {
 	*overlapSink
 }
 
+// c13FileSink: a user type with an embedded *os.File and Write/Sync methods of its own.
+type c13FileSink struct {
+	*os.File
+	overlapSink *overlapSink
+}
+
+func (f *c13FileSink) Write(p []byte) (int, error) { return f.overlapSink.Write(p) }
+func (f *c13FileSink) Sync() error                 { return f.overlapSink.Sync() }
+
 // c13View is a second WriteSyncer value in front of the same sink.
 type c13View struct{ zapcore.WriteSyncer }
 
@@ -709,8 +718,12 @@ func propC13LockConcurrent(t *rapid.T) {
 	// from an embedded mutex that guards something else, e.g. rotation) - which makes it a sync.Locker without
 	// making its Write and Sync any safer
 	var raw zapcore.WriteSyncer = sink
-	shape := rapid.SampledFrom([]string{"plain", "plain", "embeds sync.Mutex", "embeds sync.RWMutex"}).Draw(t, "sinkShape")
+	shape := rapid.SampledFrom([]string{"plain", "plain", "embeds sync.Mutex", "embeds sync.RWMutex", "embeds *os.File"}).Draw(t, "sinkShape")
 	switch shape {
+	case "embeds *os.File":
+		// a user's syncer that embeds *os.File (for Name, Fd, Stat ...) and has Write and Sync of its OWN - counting,
+		// rotating: having a file descriptor somewhere inside makes nothing about those methods safe
+		raw = &c13FileSink{overlapSink: sink}
 	case "embeds sync.Mutex":
 		raw = &c13MutexSink{overlapSink: sink}
 	case "embeds sync.RWMutex":
@@ -720,7 +733,7 @@ func propC13LockConcurrent(t *rapid.T) {
 	// BufferedWriteSyncer with a tiny buffer (writes larger than it go through, syncs flush): in every case all
 	// calls that reach the sink are mutually exclusive
 	wrap := rapid.SampledFrom([]string{"direct", "direct", "combine", "lock(buffered)", "combine(buffered)", "buffered(lock)",
-		"lock(multi(lock,lock))", "combine(lock,lock)", "lock(multi(shared lock,other))", "combine(shared lock,other)"}).Draw(t, "between")
+		"lock(multi(lock,lock))", "combine(lock,lock)", "lock(multi(shared lock,other))", "combine(shared lock,other)", "buffered(shared lock)"}).Draw(t, "between")
 	var lk zapcore.WriteSyncer
 	var direct zapcore.WriteSyncer // a second way to the sink that some goroutines use instead (nil: none)
 	perCall := 1                   // calls reaching the sink per call made
@@ -736,6 +749,12 @@ func propC13LockConcurrent(t *rapid.T) {
 			lk = zapcore.Lock(zapcore.NewMultiWriteSyncer(a, b))
 		}
 		perCall = 2
+	case "buffered(shared lock)":
+		// the locked syncer under the buffer is ALSO written to directly (an error output, a second core): the buffer's
+		// flushes, write-throughs and syncs go through that same lock
+		shared := zapcore.Lock(raw)
+		bws = &zapcore.BufferedWriteSyncer{WS: shared, Size: 2, FlushInterval: time.Hour}
+		lk, direct = bws, shared
 	case "lock(multi(shared lock,other))", "combine(shared lock,other)":
 		// a locked syncer that is a member of a locked group AND used on its own: both ways hold ITS lock
 		shared := zapcore.Lock(raw)
